@@ -649,7 +649,17 @@ void get_argspec_string(struct uftrace_task_reader *task, char *args, size_t len
 			sym = task_find_sym_addr(sessions, task, task->rstack->time,
 						 (uint64_t)val.i);
 
-			if (sym) {
+			if (sym && needs_json) {
+				const char *p = sym->name;
+
+				/* the name comes from the data: no color, and escaped */
+				print_args(&args, &len, "&");
+				while (*p) {
+					char c = *p++;
+					print_json_escaped_char(&args, &len, c);
+				}
+			}
+			else if (sym) {
 				print_args(&args, &len, "%s", color_symbol);
 				if (format_mode == FORMAT_HTML)
 					print_args(&args, &len, "&amp;%s", sym->name);
